@@ -133,7 +133,7 @@ fans:
     controlAlgorithm: direct
     hwmon: {platform: vxchip, rpmChannel: 2}
   - id: fanC
-    curve: lin
+    curve: pidsolo
     controlAlgorithm: {direct: {maxPwmChangePerCycle: 10}}
     file: {path: %s, rpmPath: %s}
   - id: fanF
@@ -147,6 +147,8 @@ curves:
     linear: {sensor: s, min: 40, max: 80}
   - id: pidc
     pid: {sensor: s, setPoint: 60, p: -0.05, i: -0.005, d: -0.005}
+  - id: pidsolo
+    pid: {sensor: s, setPoint: 55, p: -0.04, i: -0.004, d: -0.004}
   - id: shared
     function: {type: maximum, curves: [lin, pidc]}
 `, db, parallel, vxTempRate, vxRpmRate, vxTick, filePwm, fileRpm, filePwmF, fileRpmF, extraFans)
@@ -172,7 +174,7 @@ curves:
 		vsignal.DefaultAction = func(sig os.Signal) { os.Exit(143) }
 		var nApi, nMet int64
 		rest := api.CreateRestService()
-		paths := []string{"/fan/", "/fan/fanA/", "/fan/fanB/", "/fan/fanC/", "/fan/fanF/", "/sensor/", "/sensor/s/", "/curve/", "/curve/shared/", "/curve/lin/", "/curve/pidc/", "/alive/"}
+		paths := []string{"/fan/", "/fan/fanA/", "/fan/fanB/", "/fan/fanC/", "/fan/fanF/", "/sensor/", "/sensor/s/", "/curve/", "/curve/shared/", "/curve/lin/", "/curve/pidc/", "/curve/pidsolo/", "/alive/"}
 		go func() {
 			time.Sleep(time.Duration(job.ApiOffsetUs) * time.Microsecond)
 			for {
